@@ -40,9 +40,14 @@ func bigCases() []core.Case {
 	v.Free = 64 + (8-(v.FilesEnd()%8))%8
 	v.Blocks[0].Count = uint32(v.Size() / 8)
 	cs = append(cs, imgCase("wf-big-raw-ext", single(v), "1"))
+	// a freeform file with one 16 MiB raw section behind an extended section header; the bytes of
+	// the file's extended size (0x01000130) do not sum to zero, so they matter for the header checksum
+	ff := &hu.File{Kind: "fs", GUID: guidN(6), Type: 2, Attrs: 0x40, State: 0xF8,
+		Secs: []*hu.Sec{{Kind: "sl", Type: 0x19, Ext: true, Body: make([]byte, 0x1000108)}}}
+	cs = append(cs, imgCase("wf-big-freeform-extsec", single(bigFV(true, ff)), "1"))
 	// a nested volume of more than 16 MiB: extended section header, both volumes FFSv3
 	inner := bigFV(true, &hu.File{Kind: "fs", GUID: guidN(4), Type: 7, Attrs: 0, State: 0xF8,
-		Secs: []*hu.Sec{{Kind: "sl", Type: 0x10, Body: make([]byte, 0x1000100)}}})
+		Secs: []*hu.Sec{{Kind: "sl", Type: 0x10, Ext: true, Body: make([]byte, 0x1000100)}}})
 	outer := bigFV(true, &hu.File{Kind: "fs", GUID: guidN(5), Type: 0x0B, Attrs: 0x40, State: 0xF8,
 		Secs: []*hu.Sec{{Kind: "su", Name: []rune("Nested")}, {Kind: "sf", FV: inner}}})
 	cs = append(cs, imgCase("wf-big-nested", single(outer), "1"))
